@@ -19,7 +19,7 @@ SPEC = {
     "C05": ("Kernel-checked invariants of the solver model for every method, oracle, parameter set, budget and stop predicate "
             "(every strategy row is a distribution, cum_strat >= 0, returned profile valid, bounds non-negative and None iff no "
             "iteration ran) + correspondence and no-panic/validity monitor over methods x params x budgets x thresholds x thread "
-            "counts incl. the usize::MAX/3 boundary. Round 3: at binary64 itself (C05F.v) avg_strat and regret_match (main branch, uniform and arg-max/min fallbacks) return rows of finite numbers in [0,1] summing to one within (2n+2)*2^-53 when the normaliser is finite. The whole solve (SolveFloat.v): for Full and Sampled, any oracle and stop predicate, no NaN and no infinity can arise while reg_cap(g,T)*2^e < 2^1024 (the positive counterpart of the listed overflow finding): returned rows finite in [0,1], bounds finite and non-negative, for vanilla, CFR+ and every parameter tuple with discount factors in [0,1] and a non-softmax fallback.", "7 (C05)",
+            "counts incl. the usize::MAX/3 boundary. Round 3: at binary64 itself (C05F.v) avg_strat and regret_match (main branch, uniform and arg-max/min fallbacks) return rows of finite numbers in [0,1] summing to one within (2n+2)*2^-53 when the normaliser is finite. The whole solve (SolveFloat.v): for Full and Sampled, any oracle and stop predicate, no NaN and no infinity can arise while reg_cap(g,T)*2^e < 2^1024 (the positive counterpart of the listed overflow finding): returned rows finite in [0,1], bounds finite and non-negative, for vanilla, CFR+ and every parameter tuple with discount factors in [0,1] and a non-softmax fallback; external sampling likewise (ExternalFloat.v).", "7 (C05)",
             "Known finding: binary64 overflow at |payoff| ~ 1e308 (listed). OS thread creation and rayon are runtime, not model. "),
     "C06": ("Kernel-checked: the traversal is a pure value plus a list of atomic increments that commute; cut lemma for any antichain; the code's frontier is one for every target; hence the model of the multi-threaded solve (thread_threshold, payoff cache, tasks under ANY permutation schedule per iteration) returns exactly what the single-threaded solve returns, for every target, params, budget, stop predicate. Correspondence implementation(k threads) vs implementation(1 thread) vs model on frontier-adversarial trees with seeded yield points.", "7 (C06)", "Atomics, Mutex and rayon are trusted; equality is over the reals (summation order). "),
     "C07": ("Kernel-checked: chance-sampled multi = single (shared with C06); external-sampled: pass = pure value + commuting increments, unique visit of every active infoset per pass under perfect recall (over workers and cached traversal together: no try_lock collision), cut lemma, frontier antichain, one draw per cell and pass, solve_ext_multi = solve_single for every oracle, target, schedule and reduction order. Correspondence under pinned draws (k threads vs 1 vs model), draw-event monitor.", "7 (C07)", "Atomics, Mutex and rayon are trusted. "),
@@ -35,7 +35,7 @@ SPEC = {
             "run and the presented weights; z-test of production sampler frequencies. Round 3 (C10F.v): the categorical sampler at binary64 itself — index always in range, exact characterisation by the chain of rounded residuals for every input, equal to the cumulative-interval index whenever no subtraction rounds (in particular on the 2^-53 grid of rng.gen::<f64>()), monotone in the variate.", "7 (C10)",
             "rand_distr::WeightedAliasIndex / thread_rng trusted. "),
     "C11": ("Kernel-checked: acceptance <-> declarative contract on node occurrences (over R; completeness and blame for every number type), a rejection names a violated rule, accepted games satisfy WFgame + PerfectRecall (whole history) + ChanceOK, accepted data is finite/positive for every number type incl. binary64. Correspondence on valid and invalid trees + independent Python contract oracle. Round 3: at binary64 itself (C11F.v) the stored chance probabilities are finite numbers in [0,1] for every finite positive weights, overflowing sum or not (repair D14 complete).", "7 (C11)", ""),
-    "C12": ("Kernel-checked invariance theorems: rescaling chance weights, inserting/removing transparent nodes and injective renaming give literally the same from_root result (up to names), hence the same evaluation and the same solve by every method; payoffs x c>0 scale utilities/regrets/bounds with strategies unchanged (fallback weight 0 or +-inf: necessary, counterexample proved), + constant shifts utility only and leaves the solver unchanged, swapping the players mirrors everything; unsampled and chance-sampled methods. Correspondence of original vs transformed presentations through the implementation and the model. Round 3 (C12F.v): at binary64 itself multiplying the payoffs by a power of two is bit-exact for the evaluator and for every number get_info reports, under a decidable range check.", "7 (C12)", "Inexact variants (x3, +constant) are compared at T <= 10 with tolerance 1e-6. "),
+    "C12": ("Kernel-checked invariance theorems: rescaling chance weights, inserting/removing transparent nodes and injective renaming give literally the same from_root result (up to names), hence the same evaluation and the same solve by every method; payoffs x c>0 scale utilities/regrets/bounds with strategies unchanged (fallback weight 0 or +-inf: necessary, counterexample proved), + constant shifts utility only and leaves the solver unchanged, swapping the players mirrors everything; unsampled and chance-sampled methods. Correspondence of original vs transformed presentations through the implementation and the model. Round 3 (C12F.v): at binary64 itself multiplying the payoffs by a power of two is bit-exact for the evaluator and for every number get_info reports, under a decidable range check; and for the solver itself (ScaleSolveFloat.v): same strategies, same iteration count, bounds scaled bit for bit for the unsampled and chance-sampled methods and every non-softmax parameter set, under a checker over the unscaled run.", "7 (C12)", "Inexact variants (x3, +constant) are compared at T <= 10 with tolerance 1e-6. "),
     "C13": ("Kernel-checked theorems on the iterator state machines (exact lengths at every prefix, items, round trip) + "
             "correspondence incl. len() before every next(). Round 3: at binary64 itself (C13F.v) the round trip moves every entry by at most (3n+4)*2^-53 relative, keeps zeros and positivity and is the identity on rows whose float sum is exactly one.", "7 (C13)", ""),
     "C14": ("Kernel-checked agreement of the hash-based and scan-based import models for every input + result/ok-iff theorems + "
